@@ -506,9 +506,15 @@ def run(ctx: Ctx):
         if why:
             ctx.report("C11 oracle: " + why, {"kind": "xtype", "case": c})
     ctx.coverage["oracle"]["equal_values_of_another_type"] = nx
+    # F: constructor calls of a generated dataclass vs Model/CallAssign.v (arguments in text order)
+    from .. import callassign as ca
+    ca.check_part(ctx, 300 if not ctx.thorough else 4000, "C11")
 
 
 def replay(ctx: Ctx, data):
+    if isinstance(data.get("case"), dict) and data["case"].get("kind") == "call":
+        from .. import callassign as ca
+        return ca.replay_case(data["case"])
     case = data["case"]
     k = case.get("kind")
     if k == "align":
